@@ -1,5 +1,49 @@
-(* argv: init repeat min max upper  -> one line per (d0, g) of the full grid: "d0 g | t1:i1 t2:i2 ..." (us) *)
-let () =
+(* grid mode: argv = init repeat min max upper
+     -> one line per (d0, g) of the full grid: "d0 g | t1:i1 t2:i2 ..." (us) followed by ok / BAD
+   node mode: argv = node; stdin, one request per line
+     "K <kind> <d0> <g>"            -> queue entries "t1:i1 t2:i2 ..." of a message of that kind (kind_schedule_us) + ok / BAD
+     "D <cap> <ev> <ev> ..."        -> "<memory, newest first> | <one 0/1 per event: handed to the handler>"   (drun)
+        ev:  o<id> EvOut, i<id> EvIn, p<n> EvOp (n-th constructor of api_op), r EvRestart *)
+let kind_of = function
+  | "Hello" -> KHello | "Bye" -> KBye | "Probe" -> KProbe | "Resolve" -> KResolve
+  | "ProbeMatches" -> KProbeMatches | "ResolveMatches" -> KResolveMatches
+  | s -> failwith ("unknown kind " ^ s)
+let op_of = function
+  | 0 -> OpPublish | 1 -> OpClearService | 2 -> OpClearLocal | 3 -> OpClearRemote | 4 -> OpSearch | 5 -> OpFound
+  | 6 -> OpStop | n -> failwith ("unknown operation " ^ string_of_int n)
+let ev_of s =
+  let rest () = int_of_string (String.sub s 1 (String.length s - 1)) in
+  match s.[0] with
+  | 'o' -> EvOut (z_of_int (rest ()))
+  | 'i' -> EvIn (z_of_int (rest ()))
+  | 'p' -> EvOp (op_of (rest ()))
+  | 'r' -> EvRestart
+  | _ -> failwith ("unknown event " ^ s)
+
+let node () =
+  let buf = Buffer.create (1 lsl 16) in
+  (try
+     while true do
+       let line = input_line stdin in
+       match List.filter (fun x -> x <> "") (String.split_on_char ' ' line) with
+       | "K" :: k :: d0 :: g :: [] ->
+           let kd = kind_of k in
+           let s = kind_schedule_us kd (z_of_int (int_of_string d0)) (z_of_int (int_of_string g)) in
+           List.iter (fun (t, i) -> Buffer.add_string buf (Printf.sprintf "%d:%d " (int_of_z t) (int_of_z i))) s;
+           Buffer.add_string buf (if kind_count_ok kd then "ok\n" else "BAD\n")
+       | "D" :: cap :: evs ->
+           let (mem, acted) = drun (nat_of_int (int_of_string cap)) [] (List.map ev_of evs) in
+           List.iter (fun z -> Buffer.add_string buf (Printf.sprintf "%d " (int_of_z z))) mem;
+           Buffer.add_string buf "|";
+           List.iter (fun b -> Buffer.add_string buf (if b then " 1" else " 0")) acted;
+           Buffer.add_char buf '\n'
+       | [] -> Buffer.add_char buf '\n'
+       | _ -> failwith ("bad request " ^ line)
+     done
+   with End_of_file -> ());
+  print_string (Buffer.contents buf)
+
+let grid () =
   let a i = int_of_string Sys.argv.(i) in
   let p = { init_ms = z_of_int (a 1); repeat = nat_of_int (a 2); min_ms = z_of_int (a 3);
             max_ms = z_of_int (a 4); upper_ms = z_of_int (a 5) } in
@@ -13,3 +57,5 @@ let () =
     done
   done;
   print_string (Buffer.contents buf)
+
+let () = if Array.length Sys.argv > 1 && Sys.argv.(1) = "node" then node () else grid ()
